@@ -172,6 +172,45 @@ func runC17(tier string, seed int64, si, sn int, rep *monitor.Report, note func(
 			}
 		}
 	}
+	// a rejected or failed request must not poison the next one: two calls on the same provider without a refresh.
+	// (A *successful* first call is not followed up here: the provider does not refresh its description by itself,
+	// the controller refreshes it at the start of every scan and resizes a group at most once per scan, so "current"
+	// would be ambiguous and the property does not speak about it.)
+	if si == 0 {
+		for _, first := range []struct {
+			name  string
+			d     int64
+			fault bool
+		}{{"cloud-error", 3, true}, {"above-max", 50, false}, {"nonpositive", 0, false}} {
+			for _, d2 := range []int64{1, 2, 4} {
+				fx, _ := newAWS(0, 12, 5, 5, cloudprovider.AWSNodeGroupConfig{}, "subnet-a")
+				fx.F.Reset()
+				if first.fault {
+					fx.F.Ordinal = map[string]map[int]sim.FaultKind{sim.AwsSetDes: {1: sim.FThrottle}}
+				}
+				call(func() error { return fx.NG.IncreaseSize(first.d) })
+				fx.F.Ordinal = nil
+				before := fx.ASG.Desired
+				from := len(fx.J.Events)
+				err, pv := call(func() error { return fx.NG.IncreaseSize(d2) })
+				evals++
+				w := fx.writes(from)
+				rep.Covered(P, fmt.Sprintf("setdesired:second-call-after-%s", first.name))
+				legal := before+d2 <= 12
+				switch {
+				case pv != nil:
+					rep.Violate(P, "panic", "second IncreaseSize(%d) after a %s first call panicked: %v", d2, first.name, pv)
+				case legal && (err != nil || len(w) != 1 || w[0].Desired != before+d2):
+					rep.Violate(P, "second-call-not-current-plus-delta", "IncreaseSize(%d) on a real desired capacity of %d, after a first call (%s, delta %d): err=%v writes=%v, expected exactly SetDesiredCapacity(%d)", d2, before, first.name, first.d, err, w, before+d2)
+				case !legal && (err == nil || len(w) != 0):
+					rep.Violate(P, "second-call-illegal-accepted", "IncreaseSize(%d) on desired %d max 12 after a first call (%s): err=%v writes=%v", d2, before, first.name, err, w)
+				}
+				if fx.ASG.Desired < before {
+					rep.Violate(P, "desired-lowered", "second IncreaseSize(%d) lowered desired from %d to %d", d2, before, fx.ASG.Desired)
+				}
+			}
+		}
+	}
 	// fleet: rejected requests must not reach AWS at all
 	if si == 0 {
 		for _, d := range []int64{-1, 0, 5} {
@@ -445,9 +484,29 @@ func runC18(tier string, seed int64, si, sn int, rep *monitor.Report, note func(
 		fx.C.Fleet = sim.FleetScript{Groups: 1, ReadyAfter: -1, PageSize: 100}
 		fatalAt := 0
 		for i := 1; i <= 4 && fatalAt == 0; i++ {
+			from := len(fx.J.Events)
 			_, pv := call(func() error { return fx.NG.IncreaseSize(3) })
 			if _, ok := pv.(sim.FatalSignal); ok {
 				fatalAt = i
+			}
+			// whatever the attempt number, and also when escalator gives up: nothing acquired may be left behind
+			var acquired []string
+			submitted := map[string]bool{}
+			for _, e := range fx.J.Events[from:] {
+				if e.API == sim.AwsFleet && e.Fleet != nil {
+					acquired = e.Fleet.Returned
+				}
+				if e.API == sim.AwsTermIns {
+					for _, id := range e.IDs {
+						submitted[id] = true
+					}
+				}
+			}
+			for _, id := range acquired {
+				if !submitted[id] {
+					rep.Violate(P, "instances-leaked-on-repeated-failure", "consecutive failed fleet scale-up number %d: instance %s was neither attached nor submitted for termination (fatal exit: %v)", i, id, fatalAt == i)
+					break
+				}
 			}
 		}
 		rep.Covered(P, fmt.Sprintf("consecutive-failures:fatal-at-%d", fatalAt))
